@@ -82,6 +82,21 @@ def check_case(case, acc, mode='normal'):
     if got != exp:
         acc.viol('c15.check_digit.value', case, got, exp, 'check digit differs from reference Luhn')
         return
+    # the documented parameter name, passed by keyword (the same questions in the other calling convention)
+    try:
+        got = card.calculate_check_digit(card_number=s)
+        full = card.add_check_digit(card_number=s)
+        ok = _accepted(lambda x: card.validate_check_digit(card_number=x), full)
+        bad_ok = full and _accepted(lambda x: card.validate_check_digit(card_number=x),
+                                    full[:-1] + str((int(full[-1]) + 1) % 10))
+    except Exception as ex:
+        acc.viol('c15.keyword_call.exception', case, repr(ex), exp, 'called with card_number=<number>')
+        return
+    if got != exp or full != s + exp or not ok or bad_ok:
+        acc.viol('c15.keyword_call.value', case, 'check digit %s, with check digit %s, validates %s, wrong check '
+                 'digit validates %s' % (got, full, ok, bool(bad_ok)), 'check digit %s, %s, True, False' % (exp, s + exp),
+                 'the same functions called with card_number=<number> instead of positionally')
+        return
     try:
         full = card.add_check_digit(s)
     except Exception as ex:
